@@ -72,7 +72,7 @@ var mutants = []mutant{
 	{"C05-m6", "C05", "x/tss/keeper/keeper_de.go", "	deQueue.Head += 1\n	k.SetDEQueue(ctx, address, deQueue)\n	return de, nil", "	k.SetDEQueue(ctx, address, deQueue)\n	return de, nil", "C05.R2:one-head-increment", "head never advances: the same index is read again"},
 
 	// ---------------- C06
-	{"C06-m1", "C06", "x/feeds/keeper/keeper_price.go", "	if totalPower.LT(powerQuorum) || availablePower.MulRaw(2).LT(totalPower) {", "	if totalPower.LT(powerQuorum) && availablePower.MulRaw(2).LT(totalPower) {", "C06.R1", "price AVAILABLE below quorum"},
+	{"C06-m1", "C06", "x/feeds/keeper/keeper_price.go", "	if totalPower.LT(powerQuorum) || !availablePower.IsPositive() || availablePower.MulRaw(2).LT(totalPower) {", "	if totalPower.LT(powerQuorum) && (!availablePower.IsPositive() || availablePower.MulRaw(2).LT(totalPower)) {", "C06.R1", "price AVAILABLE below quorum"},
 	{"C06-m2", "C06", "x/feeds/types/median.go", "		if cumulativeWeight.MulRaw(2).GTE(totalWeight) {", "		if cumulativeWeight.MulRaw(3).GTE(totalWeight) {", "C06.R2:median-returns-an-input-price", "not the median"},
 	{"C06-m3", "C06", "x/feeds/keeper/keeper_price.go", "			status := k.oracleKeeper.GetValidatorStatus(ctx, operator)\n			if !status.IsActive {", "			status := k.oracleKeeper.GetValidatorStatus(ctx, operator)\n			if false && !status.IsActive {", "C06.R3:only-active-validators", "inactive validators' prices are counted"},
 	{"C06-m4", "C06", "x/feeds/keeper/keeper_price.go", "		valPrice.Timestamp >= blockTime.Unix()-feed.Interval {", "		valPrice.Timestamp >= blockTime.Unix()-2*feed.Interval {", "C06.R3:fresh-means", "stale prices are aggregated"},
